@@ -15,7 +15,10 @@ def main():
     from .values import Unsupported
     from .frontend import BuildError
     try:
-        if a.prop in ('C01', 'C02', 'C03', 'C04', 'C05', 'C06', 'C07', 'C08', 'C09', 'C19'):
+        if a.replay:
+            from . import replay as _replay
+            rc = _replay.replay(a.prop, a.replay)
+        elif a.prop in ('C01', 'C02', 'C03', 'C04', 'C05', 'C06', 'C07', 'C08', 'C09', 'C19'):
             from . import mapper_run
             rc = mapper_run.check(a.prop, a.tier, seed)
         elif a.prop == 'C13':
